@@ -29,8 +29,20 @@ var ForEachMapOrder = func(run func()) {
 	}
 }
 
+// MapOrderBound is the deviation bound used by the instrumented build's enumeration
+// (2: "the loader's scan picks one candidate, the verifier's scan the other").
+var MapOrderBound = 2
+
+// MapOrderCap bounds the executions of one ForEachMapOrder call; hitting it is recorded in MapOrderCapped.
+var MapOrderCap = 20000
+
+var (
+	MapOrderExecs  int64 // executions performed under explicit orders (instrumented build)
+	MapOrderCapped int64 // ForEachMapOrder calls that hit MapOrderCap
+)
+
 // MapOrderNote is what evidence files say about the above.
-const MapOrderNote = "map orders sampled by repetition on the plain build (64x) pending the instrumented build"
+var MapOrderNote = "map orders sampled by repetition on the plain build (64x): the instrumented build was not available"
 
 // FileObs is one entry delivered by Deb.Data.
 type FileObs struct {
